@@ -8,6 +8,7 @@
 -/
 import VrlProofs.Lemmas.KindGet
 import VrlProofs.Lemmas.KindUnion
+import VrlProofs.Lemmas.KindSuperset
 
 namespace C19
 open Spec
@@ -82,5 +83,27 @@ theorem mem_union_right (v : Value) (A B : Kind) (sA : A.SortedK = true) (sB : B
     (iA : A.hasNonAnyInf = false) (iB : B.hasNonAnyInf = false) (h : mem v B = true) :
     mem v (A.union B) = true :=
   (Spec.mergeKeepF_sound _).right A B v sA sB iA iB h
+
+/-- **The subtype test is sound**: if `A.is_superset(B)` answers `Ok` then every member of `B` is a
+    member of `A` – for every `A` without an `Exact(k)` unknown whose `k.is_any()` holds
+    (`Unknown::from` never builds one; see `W.witness_superset_exact_isAny` for why it is excluded). -/
+theorem superset_sound_partial (v : Value) (A B : Kind)
+    (hA : A.anyUnknown Unknown.exactIsAny = false) : supersetLawM v A B = true := by
+  unfold supersetLawM supersetLaw
+  cases hr : A.isSuperset B with
+  | false => rfl
+  | true =>
+    cases hB : mem v B with
+    | false => rfl
+    | true =>
+      have := (Spec.isSupersetF_sound _).mem A B v hA hr hB
+      simp [this]
+
+/-- `mem_iff_superset`, the direction that holds for every kind in the fragment above:
+    the maintainers' oracle `K.is_superset(Kind::from(v))` never accepts a non-member. -/
+theorem mem_of_superset_kindOf (v : Value) (K : Kind) (hs : v.Sorted = true)
+    (hK : K.anyUnknown Unknown.exactIsAny = false) (h : K.isSuperset v.kindOf = true) :
+    mem v K = true :=
+  (Spec.isSupersetF_sound _).mem K v.kindOf v hK h (Spec.mem_kindOf v hs)
 
 end C19
